@@ -8,7 +8,9 @@ Inductive instr :=
 | IBump                              (* count one evaluation of this file *)
 | ISet (k v : nat)                   (* exports["k<k>"] = v *)
 | IReq (req : zs) (catch : bool)     (* x = require(req), inside try/catch or not; the outcome is logged *)
-| IThrow (tag : nat).                (* throw a tagged object *)
+| IThrow (tag : nat)                 (* throw a tagged object *)
+| ILazy (req : zs)                   (* export one more function that calls require(req) when invoked (outcome logged, errors caught) *)
+| ICall (target : zs).               (* t = require(target) (logged, errors caught); then invoke the functions t exports so far, in order *)
 
 Inductive fentry :=
 | FJs (prog : list instr)
@@ -33,7 +35,7 @@ Definition node_prefix : zs := [110; 111; 100; 101; 58].   (* "node:" *)
 (* ---------- run-time state of one RequireModule ---------- *)
 Inductive owner := OFile (p : zs) | ONative (name : zs) (k : nkind).
 
-Record mrec := { m_owner : owner; m_exports : list (nat * nat) }.
+Record mrec := { m_owner : owner; m_exports : list (nat * nat); m_lazies : list zs }.
 
 Record rstate := {
   files_cache : list (zs * nat);       (* r.modules: path of a module file -> module *)
@@ -85,7 +87,7 @@ Variable nat_reg : natives.
 Definition new_module (st : rstate) (o : owner) : rstate * nat :=
   let id := length (store st) in
   ({| files_cache := files_cache st; resolved_cache := resolved_cache st; node_cache := node_cache st; native_cache := native_cache st;
-      store := store st ++ [{| m_owner := o; m_exports := [] |}]; compiled := compiled st; counters := counters st;
+      store := store st ++ [{| m_owner := o; m_exports := []; m_lazies := [] |}]; compiled := compiled st; counters := counters st;
       loader_log := loader_log st; native_runs := native_runs st; events := events st |}, id).
 
 Definition with_files (st : rstate) (c : list (zs * nat)) : rstate :=
@@ -194,7 +196,27 @@ Section Open.
 Variable rq : rstate -> path -> zs -> rstate * res.
 
 Definition set_exp (st : rstate) (m k v : nat) : rstate :=
-  with_store st (upd_nth (store st) m (fun r => {| m_owner := m_owner r; m_exports := set_export (m_exports r) k v |})) (counters st).
+  with_store st (upd_nth (store st) m (fun r => {| m_owner := m_owner r; m_exports := set_export (m_exports r) k v; m_lazies := m_lazies r |})) (counters st).
+
+Definition add_lazy (st : rstate) (m : nat) (req : zs) : rstate :=
+  with_store st (upd_nth (store st) m (fun r => {| m_owner := m_owner r; m_exports := m_exports r; m_lazies := m_lazies r ++ [req] |})) (counters st).
+
+Definition lazies_of (st : rstate) (m : nat) : list zs :=
+  match nth_error (store st) m with Some r => m_lazies r | None => [] end.
+Definition owner_file (st : rstate) (m : nat) : option zs :=
+  match nth_error (store st) m with Some r => match m_owner r with OFile f => Some f | ONative _ _ => None end | None => None end.
+
+(* the exported functions of a module, invoked one after the other: each calls require(req) from the code of the file that
+   DEFINED it — the request is resolved against that file's directory, whoever the caller is — logs the outcome and
+   swallows errors *)
+Fixpoint run_lazies (st : rstate) (def_file : zs) (reqs : list zs) : rstate * bool :=     (* bool: out of fuel *)
+  match reqs with
+  | [] => (st, false)
+  | r :: rest =>
+    let '(st1, x) := rq st (pdir (parse def_file)) r in
+    let st2 := log_event st1 def_file r (outcome_of st1 x) in
+    match x with RFuel => (st2, true) | _ => run_lazies st2 def_file rest end
+  end.
 
 Definition bump_counter (st : rstate) (file : zs) : rstate := with_store st (store st) (bump (counters st) file).
 
@@ -213,6 +235,20 @@ Fixpoint run_body (st : rstate) (m : nat) (file : zs) (prog : list instr) : rsta
     | _ => if catch then run_body st2 m file rest else (st2, match x with RNone => RErr 1 | y => y end)
     end
   | IThrow t :: _ => (st, RThrown t)
+  | ILazy r :: rest => run_body (add_lazy st m r) m file rest
+  | ICall t :: rest =>
+    let '(st1, x) := rq st (pdir (parse file)) t in
+    let st2 := log_event st1 file t (outcome_of st1 x) in
+    match x with
+    | ROk m' =>
+      match owner_file st2 m' with
+      | Some f' => let '(st3, oof) := run_lazies st2 f' (lazies_of st2 m') in
+                   if oof then (st3, RFuel) else run_body st3 m file rest
+      | None => run_body st2 m file rest
+      end
+    | RFuel => (st2, RFuel)
+    | _ => run_body st2 m file rest
+    end
   end.
 
 (* forget a failed module under every name *)
